@@ -1000,7 +1000,7 @@ class CachedInput:
         while len(line) < size:
             max_size = size - len(line)
             if not self.__buffer and not self.__fill(max_size):
-                break   # end of input
+                return line     # end of input
 
             # CRLF divided to two blocks
             if line[-1:] == b'\r' and self.__buffer[:1] == b'\n':
@@ -1016,7 +1016,7 @@ class CachedInput:
             line += self.__buffer[:max_size]
             self.__buffer = self.__buffer[max_size:]
 
-        # no end-of-line found: the line was cut by size (or by end of input)
+        # no end-of-line found: the line was cut by size
         if len(line) > 1 and line[-1:] == b'\r' and \
                 (self.__buffer or self.__todo > 0):
             # do not cut CRLF in two, next line will start with this CR
